@@ -1,15 +1,27 @@
 #!/bin/bash
-# Runs every case of the library-model probe harness (VxLibProbe) and lists the cases that are
-# not decided as "holds" (unsupported construct, wrong model = VIOLATION, crash).
-# usage: tools/libprobe.sh [binary] [first] [last]
-BIN=${1:-/verif/bin/verif}; A=${2:-0}; B=${3:-65}
+# Runs every case of the two coverage probes of the executor — VxHLibProbe (library models, 66
+# cases) and VxHLangProbe (Go language constructs, 20 cases) — and lists the cases that are not
+# decided as "holds" (unsupported construct, wrong model = VIOLATION, crash). With NATIVE=1 every
+# case is also compiled and run natively (`verif replay`) on one concrete input, which checks
+# the expectation written into the probe itself.
+# usage: tools/libprobe.sh [binary]
+BIN=${1:-/verif/bin/verif}
 cd /verif || exit 2
 bad=0
-for k in $(seq $A $B); do
-  out=$(VERIF_REPO=${VERIF_REPO:-/repo} timeout 300 $BIN run -pkg scipipe -fn VxLibProbe -param k=$k 2>&1)
-  if echo "$out" | grep -qE "UNSUPPORTED|VIOLATION|unsupported=[1-9]|inconclusive=[1-9]" || ! echo "$out" | grep -q "probed:"; then
-    bad=$((bad+1)); echo "k=$k: $(echo "$out" | grep -E "UNSUPPORTED|VIOLATION" | head -2 | cut -c1-200 | tr '\n' ' ')"
-  fi
-done
+probe() { # harness last
+  for k in $(seq 0 $2); do
+    out=$(VERIF_REPO=${VERIF_REPO:-/repo} timeout 300 $BIN run -pkg scipipe -fn $1 -param k=$k 2>&1)
+    if echo "$out" | grep -qE "UNSUPPORTED|VIOLATION|unsupported=[1-9]|inconclusive=[1-9]" || ! echo "$out" | grep -q "probed:"; then
+      bad=$((bad+1)); echo "$1 k=$k: $(echo "$out" | grep -E "UNSUPPORTED|VIOLATION" | head -2 | cut -c1-200 | tr '\n' ' ')"
+    fi
+    if [ -n "$NATIVE" ]; then
+      d=$(mktemp -d); echo "{\"_harness\":\"$1\",\"_pkg\":\"scipipe\",\"_property\":\"probe\",\"_what\":\"probe.ok\",\"param.k\":$k,\"s\":\"a/B\",\"t\":\".c\"}" > $d/p.json
+      timeout 300 $BIN replay $d/p.json 2>&1 | grep -q "VXRESULT PASS" || { bad=$((bad+1)); echo "$1 k=$k: native run does not pass"; }
+      rm -rf $d
+    fi
+  done
+}
+probe VxHLibProbe 65
+probe VxHLangProbe 19
 echo "libprobe: $bad case(s) not decided"
 [ $bad -eq 0 ]
